@@ -14,7 +14,7 @@ LEVEL_TEXT = ('Lean 4 theorems over tables regenerated from radiometry.py (decim
               'identities of rational functions in flux, wave, H, C; Spectrum.to preserves the trapezoid integral of a density and '
               'the values of a unitless spectrum, composes and round-trips; exitance = pi x radiance and Planck unit-independence between Gen.planckExitance and Gen.planckRadiance, each translated from its own source function, '
               'with exp uninterpreted; flux-unit composition and the multi-argument to() loop (model applyTo) at spectrum level; Spectrum.to\'s per-sample steps (which of wave/value is multiplied or divided by which factor, the metre detour of flux conversion) are regenerated as Gen.toStep* and the model is defined through them (bridge lemmas toWave_eq/toFlux_eq); a converted grid stays valid (toWave_valid). Partial: Wien peak and Stefan-Boltzmann total are checked numerically only.')
-LEVEL_NOTE = ('partial: the clauses "peaks where Wien\'s law says" and "integrates to the Stefan-Boltzmann total" have no theorem '
+LEVEL_NOTE = ('what the theorems establish: CONSISTENCY of the conversion tables (cocycle, identity, round trips) and of Spectrum.to/Planck with them, plus absolute anchors — wave_factor_absolute (every wavelength factor = ratio of hand-written SI sizes), flux_factor_absolute (photlam→wlam = f·h·c/λ, wlam↔flam = 10³), constants_near_codata (H, C, K within 1e-6 of CODATA 2018), planck_closed_form (the translated functions are 2hc²/(λ⁵(e^{hc/λkT}−1)) and 2π·…); exp itself is uninterpreted, so the unit-independence theorems hold for any function of λ[m] and T in its place. partial: the clauses "peaks where Wien\'s law says" and "integrates to the Stefan-Boltzmann total" have no theorem '
               '(they need d/dλ of Planck\'s law and ∫x³/(eˣ−1)=π⁴/15); they are evaluated numerically on the implementation in every '
               'run. Trusted: tools/specs/c14.py (if-chain/literal reader), np.exp, np.trapz as Σ Δx·(y₀+y₁)/2.')
 TECHNIQUE = 'Lean 4 proof (norm_num/field_simp/ring over generated tables, induction on lists) + differential correspondence at ℚ and Float'
@@ -180,6 +180,16 @@ def _impl(c):
     if k == 'planck':
         wu = ALIAS[c['wu']][-1] if c['alias'] else c['wu']
         wave = np.array([float(Fraction(x) * MPU['nm'] / MPU[c['wu']]) for x in c['wave_nm']])
+        w0 = wave.copy()
+        rad = [float(x) for x in R.planck_radiance(wave, c['temp'], wu, c['vu'])]
+        touched = None if np.array_equal(wave, w0) else [float(x) for x in wave]
+        wave = w0.copy()
+        exi_ = [float(x) for x in R.planck_exitance(wave, c['temp'], wu, c['vu'])]
+        if touched is None and not np.array_equal(wave, w0): touched = [float(x) for x in wave]
+        wave = w0.copy()
+        bbo = R.Blackbody(wave, c['temp'], waveunit=wu, valueunit=c['vu'])
+        return {'wave': [float(x) for x in w0], 'rad': rad, 'exi': exi_, 'bb': [float(x) for x in bbo.value], 'bbwave': [float(x) for x in bbo.wave],
+                'touched': touched, 'H': R.H, 'C': R.C, 'K': R.K}
         return {'wave': [float(x) for x in wave], 'rad': [float(x) for x in R.planck_radiance(wave, c['temp'], wu, c['vu'])],
                 'exi': [float(x) for x in R.planck_exitance(wave, c['temp'], wu, c['vu'])],
                 'bb': [float(x) for x in R.Blackbody(wave, c['temp'], waveunit=wu, valueunit=c['vu']).value],
@@ -360,6 +370,8 @@ def oracle(c, io):
             if not all_close(io['rt_wave'], c['wave'], 1e-14) or not all_close(io['rt_value'], c['value'], 1e-12): return 'round trip did not restore the spectrum'
         return None
     if k == 'planck':
+        if io.get('touched') is not None: return f"planck_* rescaled the caller's wavelength array in place: {io['wave'][:3]} {c['wu']} became {io['touched'][:3]} (the same grid used again describes other wavelengths)"
+        if 'bbwave' in io and not all_close(io['bbwave'], io['wave'], 1e-15): return f"Blackbody(wave, …, waveunit='{c['wu']}').wave is {io['bbwave'][:3]}, given {io['wave'][:3]}"
         H, C, K = io['H'], io['C'], io['K']
         for i, x in enumerate(c['wave_nm']):
             lam = x * 1e-9
